@@ -36,6 +36,14 @@ var constants = map[string]V{
 }
 
 var fields = map[LT]map[string]fld{
+	// gRPC query requests (Tables/GoStore.lean): a string field is modelled by what it denotes
+	"ListBidReq":     {"AuctionId": {"%s.aid", "Int"}, "Bidder": {"%s.bidder", "Option Acc"}, "IsMatched": {"%s.isMatched", "Option BoolStr"}},
+	"GetBidReq":      {"AuctionId": {"%s.aid", "Int"}, "BidId": {"%s.bidId", "Int"}},
+	"ListAuctionReq": {"Status": {"%s.status", "Option StatusStr"}, "Type": {"%s.type", "Option ATypeStr"}},
+	"GetAuctionReq":  {"AuctionId": {"%s.aid", "Int"}},
+	"ListAllowedReq": {"AuctionId": {"%s.aid", "Int"}},
+	"GetAllowedReq":  {"AuctionId": {"%s.aid", "Int"}, "Bidder": {"%s.bidder", "Acc"}},
+	"ListVqReq":      {"AuctionId": {"%s.aid", "Int"}},
 	"Bid": {
 		"AuctionId": {"(%s.auction : Int)", "Int"}, "Id": {"(%s.id : Int)", "Int"}, "Bidder": {"%s.bidder", "Acc"},
 		"Type": {"%s.type", "BidType"}, "Price": {"%s.price", "Dec"}, "Coin": {"(Go.bidCoin %s)", "Coin"},
@@ -197,6 +205,9 @@ func init() {
 	methods["Acc.Equals"] = fnSpec{L: "decide (%1 = %2)", T: "Bool", Arity: 2, Args: []LT{"Acc", "Acc"}}
 	methods["SdkCtx.BlockTime"] = fnSpec{L: "now__", T: "Time", Arity: 1, Note: "the block time is the oracle parameter now__"}
 	methods["Acc.String"] = fnSpec{L: "%1", T: "Acc", Arity: 1}
+	// the NAME of an enum constant, as a request string is modelled (Tables/GoStore.lean)
+	methods["AType.String"] = fnSpec{L: "(some (ATypeStr.is %1))", T: "Option ATypeStr", Arity: 1}
+	methods["Status.String"] = fnSpec{L: "(some (StatusStr.is %1))", T: "Option StatusStr", Arity: 1}
 	methods["Coins.Validate"] = fnSpec{L: "(!validCoins %1)", T: "Err", Arity: 1}
 	methods["Addr.String"] = fnSpec{L: "%1", T: "Addr", Arity: 1}
 	methods["Bal.AmountOf"] = fnSpec{L: "(%1 %2)", T: "Int", Arity: 2, Args: []LT{"Bal", "Denom"}}
@@ -269,6 +280,13 @@ type compositeSpec struct {
 }
 
 var composites = map[string]compositeSpec{
+	"QueryAllBidResponse":           {T: "ListBidResp", Fields: map[string]string{"Bid": "bid := %s", "Pagination": ""}},
+	"QueryGetBidResponse":           {T: "GetBidResp", Fields: map[string]string{"Bid": "bid := %s"}},
+	"QueryAllAuctionResponse":       {T: "ListAuctionResp", Fields: map[string]string{"Auction": "auction := %s", "Pagination": ""}},
+	"QueryGetAuctionResponse":       {T: "GetAuctionResp", Fields: map[string]string{"Auction": "auction := %s"}},
+	"QueryAllAllowedBidderResponse": {T: "ListAllowedResp", Fields: map[string]string{"AllowedBidder": "allowed := %s", "Pagination": ""}},
+	"QueryGetAllowedBidderResponse": {T: "GetAllowedResp", Fields: map[string]string{"AllowedBidder": "allowed := %s"}},
+	"QueryAllVestingQueueResponse":  {T: "ListVqResp", Fields: map[string]string{"VestingQueue": "vqs := %s", "Pagination": ""}},
 	"Bid": {T: "Bid", Fields: map[string]string{"AuctionId": "auction := (%s).toNat", "Id": "id := (%s).toNat", "Bidder": "bidder := %s",
 		"Type": "type := %s", "Price": "price := %s", "Coin": "denom := (%s).denom, amt := (%s).amt", "IsMatched": "matched := %s"}},
 	"VestingQueue": {T: "VQ", Fields: map[string]string{"AuctionId": "auction := (%s).toNat", "Auctioneer": "auctioneer := %s",
